@@ -23,6 +23,10 @@ def run(tier, seed):
                 r = ac.case_recipe(G, espec, rng, nm)
                 if r:
                     recipes.append(r)
+        for _ in range(1 if q else 4):       # the chain closes on the reverse complement of one of its own junctions
+            r = ac.case_recipe(G, espec, rng, rng.randint(1, max(1, min(3, G.capacity() - 1))), rc_close=True)
+            if r:
+                recipes.append(r)
         # all rotations of a small case whose origin falls anywhere (exhaustive over the vector's and one module's rotations)
         base = G.case(rng, 2 if G.capacity() >= 3 else 1, tmax=4, bmax=4, pmax=2)
         if base:
